@@ -162,7 +162,7 @@ func vSignals() []*vSignal {
 			}
 			return internal.GetOrigMetrics(internal.Metrics(er.Metrics())), nil
 		},
-		reqMigrates: false, // pmetricotlp.ExportRequest.UnmarshalProto does not call otlp.MigrateMetrics (as the code stands)
+		reqMigrates: true,
 		newResp: func(n int64, m string) vRespAPI {
 			r := pmetricotlp.NewExportResponse()
 			r.PartialSuccess().SetRejectedDataPoints(n)
@@ -344,6 +344,7 @@ func TestVerifC08Schema(t *testing.T) {
 	for _, m := range s.msgs {
 		nf += len(m.fields)
 	}
+	out.Stat("schema_order_guessed", vSchemaGuessed)
 	out.Stat("schema_messages", len(s.msgs))
 	out.Stat("schema_fields", nf)
 }
@@ -420,6 +421,13 @@ type vRun struct {
 	rng   *vRand
 	hist  map[string]int
 	jpool []vJSONDoc
+	quiet bool // oracle only: do not emit correspondence cases
+}
+
+func (r *vRun) emit(nontrivial bool, term string) {
+	if !r.quiet {
+		r.out.Case(nontrivial, term)
+	}
 }
 
 // value -> bytes on message type m through the generated Marshal/Size/Unmarshal
@@ -438,7 +446,7 @@ func (r *vRun) protoValueCase(m *vMsg, v reflect.Value, marshal func() ([]byte, 
 		return nil
 	}
 	term := vCaseTerm(0, m.id, t0.String(), b, sz)
-	r.out.Case(len(b) > 2, term)
+	r.emit(len(b) > 2, term)
 	r.hist[fmt.Sprintf("bytes_%s_%04d", label, len(b)/256*256)]++
 	if sz != len(b) {
 		r.out.Oracle("size", term, fmt.Sprintf("%s: Size()=%d but len(Marshal())=%d", label, sz, len(b)))
@@ -517,6 +525,7 @@ func TestVerifC08(t *testing.T) {
 		t.Fatal(err)
 	}
 	r := &vRun{t: t, out: out, s: s, sigs: sigs, rng: vNewRand(8), hist: map[string]int{}}
+	r.hist["schema_order_guessed"] = vSchemaGuessed
 	defer func() {
 		for k, v := range r.hist {
 			out.Stat(k, v)
@@ -612,4 +621,7 @@ func TestVerifC08(t *testing.T) {
 
 	// (E) texts offered to the JSON unmarshalers
 	r.jsonByteCases()
+
+	// (F) every field of every reachable message with its extreme values, one at a time
+	r.directedCases()
 }
